@@ -133,6 +133,9 @@ func c11Eval(c *run.Ctx, id string, ms refmodel.MatrixSpec, perm map[string]stri
 	for k, v := range perm {
 		mp[k] = v
 	}
+	if len(perm) == 0 && len(id)%2 == 0 {
+		mp = nil // a permutation that names no dimension, as a nil map rather than an empty one
+	}
 	// The decision itself is observed on a twin whose strings carry no tokens:
 	// on the token-bearing step an accepted-but-wrong permutation could still
 	// fail later for a token naming a dimension it lacks, hiding the acceptance.
